@@ -140,7 +140,19 @@ class C15(Prop):
                 b = lang.to_text(expand_unless(f), ivl_printer=Speller(random.Random(vseed), 10 ** 9, 's', mode).ivl)
             except ValueError:
                 continue
-            out.append(('unless-expansion-units:' + mode, a, b))
+            out.append(('unless-expansion-units:' + mode, a, b, None))
+        # the same law under another sampling period and default unit (bounds = the same numbers of samples)
+        from rtverif.props.c08 import PERIODS, U
+        period = PERIODS[(vseed >> 3) % len(PERIODS)]
+        unit = ('s', 'ms', 'us')[(vseed >> 7) % 3]
+        P = period[0] * U[period[1]]
+        mode = ('default', 'both', 'same-suffix', 'end-only')[(vseed >> 11) % 4]
+        try:
+            a = lang.to_text(f, ivl_printer=Speller(random.Random(vseed), P, unit, mode).ivl)
+            b = lang.to_text(expand_unless(f), ivl_printer=Speller(random.Random(vseed), P, unit, mode).ivl)
+            out.append(('unless-expansion-period:%s%s' % tuple(period), a, b, (period, unit, P)))
+        except ValueError:
+            pass
         return out
 
     def judge(self, case):
@@ -193,11 +205,19 @@ class C15(Prop):
                 if i is not None:
                     v.bad('variant-differs-online:' + label, 'variant [%s] %r gives %r at update %d, canonical %r '
                           'gives %r' % (label, vt, on[i], i, text, base_on[i]))
-        for label, sugar, expansion in self.unit_pairs(f, case.get('vseed', 0)):
-            v.info['variant:unless-expansion-units'] = v.info.get('variant:unless-expansion-units', 0) + 1
+        for label, sugar, expansion, cfg in self.unit_pairs(f, case.get('vseed', 0)):
+            key = 'variant:' + label.split(':')[0]
+            v.info[key] = v.info.get(key, 0) + 1
+            sd, times = None, None
+            if cfg is not None:
+                from fractions import Fraction as Fr
+                from rtverif.props.c08 import U
+                period, unit, P = cfg
+                sd = {'period': (period[0], period[1], 0.1), 'unit': unit}
+                times = [float(Fr(i * P, U[unit])) for i in range(n)]
             try:
-                a = drive.values(drive.dt_offline(sugar, names, data, n))
-                b = drive.values(drive.dt_offline(expansion, names, data, n))
+                a = drive.values(drive.dt_offline(sugar, names, data, n, times=times, sd=sd))
+                b = drive.values(drive.dt_offline(expansion, names, data, n, times=times, sd=sd))
             except Exception as e:
                 v.bad('variant-raises:' + label, '%r / %r raised %s: %s' % (sugar, expansion, type(e).__name__, e))
                 continue
